@@ -136,7 +136,7 @@ class AtomsEngine(Engine):
     name = 'session_atoms'
     max_ops = 50
     expected_probes = ['inplace_overwrite_other_dtype', 'alias_candidate_used', 'refused_raised', 'scribble_result',
-                       'scribble_safecopy', 'setitem_overlap', 'extend_new_props_both_sides', 'natypes_grew',
+                       'scribble_safecopy', 'setitem_overlap', 'extend_new_props_both_sides', 'natypes_grew', 'readonly_reassign_refused',
                        'negative_index', 'mask_index', 'scaled_write', 'prop_atype_single_new_key', 'df_checked',
                        'box_set_with_possible_sharers', 'box_alias_candidate_used']
     rule = ('Each run keeps a pool of up to 6 live Atoms/System objects (parent/child links recorded) and applies up to '
@@ -148,7 +148,9 @@ class AtomsEngine(Engine):
             'int/float/bool/str and trailing shapes (), (2,), (3,), (3,3), (2,2,2). Faults: refused operations (wrong '
             'first dimension, atype<1, mismatched property sets, too many masses, a_id with index, unknown key), '
             'scribbles on arrays handed out by copying accessors or passed with safecopy=True, writes through children '
-            'that may alias their parent. After EVERY operation every pooled object is compared cell by cell with a '
+            'that may alias their parent, and a property bound to a read-only array of the caller (setflags, broadcast_to, '
+            'frombuffer) that is then reassigned through attribute / view / prop on a throwaway copy: accepted or refused, '
+            'attribute, view and prop() must agree. After EVERY operation every pooled object is compared cell by cell with a '
             'record-per-atom model. Writes to an existing property are generated representable in its stored dtype '
             '(in-place overwrite is documented); indexed writes of atype<1 and empty selections are not generated. '
             'Non-trivial run: a fired fault or >= 2 state-changing ops. distinct = distinct (previous op, op, dtype '
@@ -250,7 +252,7 @@ class AtomsEngine(Engine):
             return self._gen_new(ctx, st)
         choices = [('new', 0.4), ('set_whole', 2.0), ('prop_get', 1.5), ('prop_set', 2.0), ('prop_atype', 1.0),
                    ('extend', 0.8 * cfg['w_struct']), ('getitem', 1.0 * cfg['w_struct']), ('setitem', 1.0 * cfg['w_struct']),
-                   ('deepcopy', 0.3), ('df', 0.3), ('sys', 2.0 * cfg['w_sys']), ('drop', 0.2)]
+                   ('deepcopy', 0.3), ('df', 0.3), ('sys', 2.0 * cfg['w_sys']), ('drop', 0.2), ('ro_cycle', 0.35)]
         if not cfg['fault_free']:
             choices.append(('fault', cfg['w_fault']))
         k = ctx.wchoice(choices)
@@ -321,6 +323,13 @@ class AtomsEngine(Engine):
             else:
                 op['src'] = r.randrange(len(pool))
             return op
+        if k == 'ro_cycle':
+            cls = r.choice(['int', 'float'])
+            ts = tuple(r.choice([(), (), (3,)]))
+            return {'op': 'ro_cycle', 'o': slot, 'cls': cls, 'ts': list(ts), 'how': r.choice(['setflags', 'broadcast', 'frombuffer']),
+                    'via1': r.choice(['attr', 'view']), 'via2': r.choice(['attr', 'view', 'prop']),
+                    'v1': [self._val(ctx, cls, ts) for _ in range(m.n)], 'form2': r.choice(['full', 'len1', 'scalar'] if ts == () else ['full', 'len1']),
+                    'v2': [self._val(ctx, cls, ts) for _ in range(m.n)]}
         if k == 'deepcopy':
             return {'op': 'deepcopy', 'o': slot}
         if k == 'df':
@@ -623,6 +632,60 @@ class AtomsEngine(Engine):
         self._add(st, m)
         ctx.ev('op', 'deepcopy', {'o': op['o']})
         return {'changed': True, 'via': src.kind}
+
+    # -- a property bound to a READ-ONLY array of the caller, then reassigned (on a throwaway copy of the object)
+    def _ap_ro_cycle(self, ctx, st, op):
+        m = st['pool'][op['o']]
+        if m.n == 0 or len(op['v1']) != m.n or len(op['v2']) != m.n:
+            return {'skip': 1}
+        key = 'ro_tmp'
+        cls, ts = op['cls'], tuple(op['ts'])
+        dt = int if cls == 'int' else float
+        tmp = ctx.must('C06.A6', copy.deepcopy, m.atoms, klass='deepcopy')
+        a1 = np.array(op['v1'], dtype=dt).reshape((m.n,) + ts)
+        if op['how'] == 'broadcast':
+            a1 = np.broadcast_to(a1[:1], (m.n,) + ts)           # read-only, zero stride: every atom shows row 0
+        elif op['how'] == 'frombuffer':
+            a1 = np.frombuffer(a1.tobytes(), dtype=a1.dtype).reshape((m.n,) + ts)   # read-only view of a bytes object
+        else:
+            a1.setflags(write=False)
+        want1 = np.array(a1)
+        if op['via1'] == 'attr':
+            ctx.must('C06.X', setattr, tmp, key, a1, klass='ro/bind/attr')
+        else:
+            ctx.must('C06.X', tmp.view.__setitem__, key, a1, klass='ro/bind/view')
+        v2 = np.array(op['v2'], dtype=dt).reshape((m.n,) + ts)
+        if op['form2'] == 'len1':
+            given, want2 = v2[:1].copy(), np.array(np.broadcast_to(v2[:1], (m.n,) + ts))
+        elif op['form2'] == 'scalar':
+            given, want2 = v2[0].item(), np.array(np.broadcast_to(v2[0], (m.n,) + ts))
+        else:
+            given, want2 = v2.copy(), v2
+        if op['via2'] == 'attr':
+            ok, res = ctx.sut(setattr, tmp, key, given)
+        elif op['via2'] == 'view':
+            ok, res = ctx.sut(tmp.view.__setitem__, key, given)
+        else:
+            ok, res = ctx.sut(tmp.prop, key=key, value=given)
+        ctx.fault('readonly_array_bound')
+        ctx.probe('readonly_reassign_' + ('accepted' if ok else 'refused'))
+        # whatever the library did with the reassignment, every accessor must tell the same story: all old or all new
+        arr = tmp.view[key]
+        attr = getattr(tmp, key, None)
+        if attr is not arr:
+            raise Violation('C06.A2', {'what': 'attribute and view entry are different arrays after reassigning a property that was '
+                                               'bound to a read-only array', 'how': op['how'], 'via2': op['via2'], 'accepted': ok},
+                            klass='attr-view/ro_cycle')
+        got = np.asarray(ctx.must('C06.A3', tmp.prop, key, klass='ro/prop-get'))
+        want = want2 if ok else want1
+        if arr.shape != want.shape or not np.array_equal(arr, want) or not np.array_equal(got, want):
+            raise Violation('C06.A3', {'what': 'values after reassigning a read-only-bound property', 'accepted': ok, 'got': np.asarray(arr),
+                                       'want': want, 'how': op['how'], 'via2': op['via2']}, klass='value/ro_cycle/extra')
+        if tmp.natoms != m.n or list(tmp.view.keys()) != list(m.reg) + [key]:
+            raise Violation('C06.A1', {'what': 'structure after read-only cycle', 'keys': list(tmp.view.keys())}, klass='shape/ro_cycle')
+        ctx.ev('op', 'ro_cycle', {'o': op['o'], 'how': op['how'], 'via1': op['via1'], 'via2': op['via2'], 'form2': op['form2']},
+               {'accepted': ok})
+        return {'cls': cls, 'rank': len(ts), 'ik': op['how'], 'refused': not ok, 'via': op['via2']}
 
     # -- whole-property assignment
     def _ap_set_whole(self, ctx, st, op):
